@@ -325,6 +325,7 @@ func checkHashes(src string, st *fw.Stats, report func(k kase, what string)) {
 		report(kase{Kind: "hash", Src: src, Hashes: map[string]int{"<real-seed>": 0}}, fmt.Sprintf("transcript with the real seed differs: %s vs %s", real, base))
 	}
 	st.Nontrivial++
+	st.Outcome(fmt.Sprintf("hash:%d-long-strings:fails=%v", len(ls), base.Err != ""))
 }
 
 // ---------------------------------------------------------------------------
@@ -368,6 +369,7 @@ func checkMapOrder(src string, pairs bool, st *fw.Stats, report func(k kase, wha
 		return
 	}
 	st.Nontrivial++
+	st.Outcome(fmt.Sprintf("maporder:%d-sites-hit", len(sites)))
 	devs := func(site int) int {
 		n := hits[site]
 		if n > 8 {
@@ -486,6 +488,7 @@ func checkThreads(c *fw.Ctx, src string, n, bound int, st *fw.Stats, report func
 		st.Transitions += int64(len(x.Points))
 	}, nil, true)
 	st.Nontrivial++
+	st.Outcome(fmt.Sprintf("threads:solo-fails=%v:shared-program=%v", solo.Err != "", shared != nil))
 }
 
 // ---------------------------------------------------------------------------
